@@ -159,6 +159,8 @@ package websocket
 //@ ghost local Conn.gClosed0 : Bool
 //@ ghost local Conn.gComp0 : Bool
 //@ ghost local Conn.gNFOk : Bool
+//@ ghost local Conn.gRAFail : Bool
+//@ ghost local Conn.gRAErr : Iface
 //@ pred isData(op int) := op == 0 || op == 1 || op == 2
 // pay(c, hl, j): payload byte j of the frame at the head of the cache as it was when the reader took the lock (hl = header length); unmasked with the frame's own key if the frame is masked
 //@ pred pay(c *Conn, hl int, j int) := ite(c.gCRow[c.gCOff + 1] >= 128, xor8(c.gCRow[c.gCOff + hl + j], c.gCRow[c.gCOff + hl - 4 + m4(j)]), c.gCRow[c.gCOff + hl + j])
@@ -190,6 +192,8 @@ package websocket
 //@   ensures ctlbody: ok && err == nil && protocolMessage != nil && !c.gClosed0 ==> len(*protocolMessage) == len(body) && (forall q int {mem(*protocolMessage, q)} :: off(*protocolMessage) <= q && q < off(*protocolMessage) + len(*protocolMessage) ==> mem(*protocolMessage, q) == pay(c, totalFrameSize - len(body), q - off(*protocolMessage)))   // prop C12
 //@   note acceptance (C13): a frame that passed nextFrame's validation is not rejected afterwards - the only later failure is the inflation of a complete compressed message (text is checked for UTF-8 on the assembled message, in handleWsMessage, never per frame: a code point may be split across fragments)
 //@   ensures accepts: ok && c.gNFOk && !c.gClosed0 && (isData(opcode) || isCtl(opcode)) && !(isData(opcode) && fin && ite(c.gType0 == 0, compress, c.gComp0) && c.messageHandler != nil) ==> err == nil   // prop C13
+//@   note an inflate failure - in particular the limit violation readAll reports - is handed up unchanged, so that Parse recognises it and answers 1009 (C15)
+//@   ensures inflatefail: c.gRAFail ==> err == c.gRAErr   // prop C15
 //@   ensures ctlmsg: isProtocolMessage ==> ok && isCtl(opcode)                                                  // prop C13
 //@   ensures own: err == nil ==> (message != nil ==> liveP[message]) && (frame != nil ==> liveP[frame]) && (protocolMessage != nil ==> liveP[protocolMessage])   // prop C11
 //@   ensures size: err == nil && message != nil && limit(c) > 0 ==> len(*message) <= limit(c)                  // prop C15
@@ -199,9 +203,11 @@ package websocket
 //@   ensures apart: (message != nil && frame != nil ==> message != frame) && (isProtocolMessage ==> message == nil && frame == nil) && (protocolMessage != nil ==> isProtocolMessage)   // prop C11
 //@   ensures quiet: err == nil && !ok ==> message == nil && frame == nil && protocolMessage == nil && !isProtocolMessage
 //@   ensures ctlsize: err == nil && protocolMessage != nil ==> len(*protocolMessage) <= 125                    // prop C13 C15
-//@   assigns everything, c.gRCache, c.gRMsg, c.gRType, c.gRExp, c.gRComp, c.gExp0, c.gType0, c.gMsg0, c.gClosed0, c.gComp0, c.gNFOk, c.gCRow, c.gCLen, c.gCOff, c.gMRow, c.gMLen, c.gMOff
+//@   assigns everything, c.gRCache, c.gRMsg, c.gRType, c.gRExp, c.gRComp, c.gExp0, c.gType0, c.gMsg0, c.gClosed0, c.gComp0, c.gNFOk, c.gRAFail, c.gRAErr, c.gCRow, c.gCLen, c.gCOff, c.gMRow, c.gMLen, c.gMOff
 //@   at lock#1 ghost { c.gExp0 = c.expectingFragments; c.gType0 = c.msgType; c.gMsg0 = c.message; c.gClosed0 = c.closed; c.gComp0 = c.compress; c.gCRow = bytes_row(base(*c.bytesCached)); c.gCLen = buflenw(c.bytesCached); c.gCOff = off(*c.bytesCached); c.gMRow = bytes_row(base(*c.message)); c.gMLen = buflenw(c.message); c.gMOff = off(*c.message) }
 //@   at call:nextFrame#1 ghost { c.gNFOk = result3 && result6 == nil }
+//@   at entry ghost { c.gRAFail = false }
+//@   at call:readAll#1 ghost { c.gRAFail = result1 != nil; c.gRAErr = result1 }
 //@ func (*Conn).Parse$2
 //@   inline
 
